@@ -91,6 +91,14 @@ impl C13 {
         if got != exp {
           out.fail(env, viol("cmonth", "days", case, &k, format!("SolarMonth({},{}).get_days()", y, m), format!("{} days {}..{}", exp.len(), fmt_ymd(exp[0]), fmt_ymd(*exp.last().unwrap())), format!("{} days {:?}..", got.len(), got.iter().take(6).collect::<Vec<_>>())));
         }
+        // day-of-year of every listed day == its position in the concatenated month lists of the year
+        let before = first - c.year_start[y as usize] as usize;
+        for (j, dd) in mo.get_days().iter().enumerate() {
+          if dd.get_index_in_year() != before + j {
+            out.fail(env, viol("cmonth", "day_of_year_vs_lists", case, &k, format!("{} (day {} of the month list)", fmt_ymd(ymd(dd)), j), (before + j).to_string(), dd.get_index_in_year().to_string()));
+            break;
+          }
+        }
         if got.len() != mo.get_day_count() {
           out.fail(env, viol("cmonth", "len_vs_day_count", case, &k, format!("SolarMonth({},{})", y, m), mo.get_day_count().to_string(), got.len().to_string()));
         }
